@@ -123,9 +123,11 @@ static void nop_lines(Out& out, const char* fmt, ...) {
 STREAM(md_prod) {
   std::vector<uint64_t> dims = thorough ? std::vector<uint64_t>{2, 4, 8, 16, 32, 64, 128, 256, 512, 1024, 2048, 4096}
                                         : std::vector<uint64_t>{2, 4, 8, 16, 32, 64, 256, 1024};
+  if (thorough) { dims.push_back(16384); dims.push_back(65536); }
   for (uint64_t n : dims)
     for (int mask = 0; mask < 2; mask++)
       for (int cls = 0; cls < 6; cls++) {
+        if (n > 4096 && cls != 4) continue;  // the schoolbook oracle is O(nnz(a)·N): only sparse a at the largest dimensions
         MODULE* mod = get_module(n, 0, mask);
         // operand sizes chosen so that min(|a|_1 |b|_inf, …) stays below 2^52: |a| < 2^abits dense
         int lg = 0; while ((1ull << lg) < n) lg++;
